@@ -80,7 +80,7 @@ def endToEnd (listed : List String) (l : List (String × String)) : List (String
 
 /-- the number of bytes a piece of an escaped path stands for, counted the way `escapedLen` counts: a `%` stands for
 one byte together with the (up to) two bytes behind it. The reference for the cut that goes with a strip option
-(`c07.esclen` evaluates it on the real function's result; `Lemmas.C07.dropEscaped_count`: the model satisfies it). -/
+(`Lemmas.C07.dropEscaped_count`: the model satisfies it, for every byte string; `Props/C07Xlate.lean xescapedLen_count`: so does the Go function as translated). -/
 def decodedCount : Bytes → Nat
   | [] => 0
   | c :: s => if c = PCT then 1 + decodedCount (s.drop 2) else 1 + decodedCount s
